@@ -861,6 +861,35 @@ func (w *dmWorld) apply(s Step) {
 		w.Take()
 	case "udp":
 		w.inject(false, s.A, s.B, s.C, int(s.D))
+	case "reconnect":
+		// a connected UDP socket is connected again - to the peer it already has, or to another one. Whatever
+		// the call returns, the socket keeps the port it holds (judged by the binds that follow)
+		if s.A < 0 || s.A >= len(w.socks) {
+			break
+		}
+		sk := w.socks[s.A]
+		if sk.closed || sk.tcp || sk.fake != nil || sk.raddr == "" || sk.protos == 3 || sk.nic == 2 {
+			break
+		}
+		ra, rp := dmRAddr[s.B%3], dmRPort[s.B%3]
+		if s.C == 0 {
+			ra, rp = sk.raddr, sk.rport
+		}
+		taken := false
+		for _, o := range w.socks {
+			if o != sk && !o.closed && !o.tcp && o.lport == sk.lport && o.laddr == sk.laddr && o.raddr == ra && o.rport == rp {
+				taken = true
+			}
+		}
+		e := sk.ep.Connect(tcpip.FullAddress{Addr: ra, Port: rp})
+		w.Settle()
+		w.Probes["udp_sockets_connected_again"]++
+		switch {
+		case e == nil:
+			sk.raddr, sk.rport = ra, rp
+		case taken || (ra == sk.raddr && rp == sk.rport):
+			w.Probes["udp_connect_again_refused"]++ // (the identity is in use - by another socket or by this very one)
+		}
 	case "mcast":
 		// a UDP socket joins a group through an interface, or drops one of its memberships
 		if s.A < 0 || s.A >= len(w.socks) {
@@ -900,6 +929,9 @@ func (w *dmWorld) next() Step {
 	weights := []int{6, 1, 10, 0, 1, 1, 1, 1}
 	if w.cfg.Binds {
 		weights = []int{8, 5, 3, 0, 1, 4, 1, 1}
+	}
+	if len(w.socks) > 0 && r.Chance(0.05) {
+		return Step{Op: "reconnect", A: r.Intn(len(w.socks)), B: r.Intn(3), C: r.Intn(2)}
 	}
 	if len(w.socks) > 0 && r.Chance(0.06) {
 		return Step{Op: "mcast", A: r.Intn(len(w.socks)), B: r.Intn(3), C: r.Pick(3, 3, 2, 2)}
